@@ -216,7 +216,7 @@ func H_C15_LimitMerge(shape int) {
 
 // ---- single-record finders, Count, RowsAffected, ErrRecordNotFound
 
-var c15Finders = []string{"first", "take", "last", "first-scopes-session", "take-scopes-withcontext", "last-scopes-debug", "first-where", "find", "find-map", "scan", "pluck", "count", "rows-scanrows", "first-map", "take-slice", "find-broken-rows", "find-map-broken-rows", "pluck-broken-rows", "batches-broken-rows"}
+var c15Finders = []string{"first", "take", "last", "first-scopes-session", "take-scopes-withcontext", "last-scopes-debug", "first-where", "find", "find-map", "scan", "pluck", "count", "rows-scanrows", "first-map", "take-slice", "find-broken-rows", "find-map-broken-rows", "pluck-broken-rows", "batches-broken-rows", "scan-broken-rows", "scan-map-broken-rows", "scan-value-broken-rows", "first-broken-rows", "count-broken-rows", "count-then-page", "count-then-page-session"}
 
 func N_C15_Finders(tier int) int { return len(c15Finders) }
 
@@ -284,12 +284,16 @@ func H_C15_Finders(shape int) {
 		var c int64
 		res = db.Count(&c)
 		verifrt.Assert(c == int64(n), "C15.count")
-	case "find-broken-rows", "find-map-broken-rows", "pluck-broken-rows", "batches-broken-rows":
-		// the result set of three rows fails after a symbolic number of rows were delivered
-		k := verifrt.Concretize(verifrt.Intn("break_after", 1, 2), 1, 2)
+	case "find-broken-rows", "find-map-broken-rows", "pluck-broken-rows", "batches-broken-rows", "scan-broken-rows", "scan-map-broken-rows", "scan-value-broken-rows", "first-broken-rows", "count-broken-rows":
+		// the result set of three rows fails after a symbolic number of rows were
+		// delivered (0: on the very first fetch)
+		k := verifrt.Concretize(verifrt.Intn("break_after", 0, 2), 0, 2)
 		s.OnQuery = func(text string, args []driver.Value) RowSet {
 			rs := c15Answer(3, text, args)
 			rs.BreakAfter = k
+			if k == 0 {
+				rs.BreakAfter = -1
+			}
 			return rs
 		}
 		switch kind {
@@ -305,9 +309,65 @@ func H_C15_Finders(shape int) {
 		case "batches-broken-rows":
 			var sl []Item
 			res = db.FindInBatches(&sl, 3, func(tx *gorm.DB, batch int) error { return nil })
+		case "scan-broken-rows":
+			var sl []Item
+			res = db.Scan(&sl)
+		case "scan-map-broken-rows":
+			var sl []map[string]interface{}
+			res = db.Scan(&sl)
+		case "scan-value-broken-rows":
+			var id int64
+			res = db.Select("id").Scan(&id)
+			if k > 0 {
+				return // a single value was read before the result set broke
+			}
+		case "first-broken-rows":
+			var it Item
+			res = db.First(&it)
+			if k > 0 {
+				return // First reads one row
+			}
+		case "count-broken-rows":
+			var c int64
+			res = db.Count(&c)
+			if k > 0 {
+				return // the one count row was read
+			}
 		}
 		// a read that lost rows reports it
 		verifrt.Assert(errors.Is(res.Error, errRowsBroken), "C15.broken-result-set-not-reported")
+		return
+	case "count-then-page", "count-then-page-session":
+		// the pagination idiom: Count, then the page read chained onto its result, sends
+		// the same page query as the page read alone
+		h := db.Where("age > ?", 0).Order("score desc")
+		if kind == "count-then-page-session" {
+			h = h.Session(&gorm.Session{})
+		}
+		lastQuery := func() (string, []driver.Value) {
+			for i := len(s.Log) - 1; i >= 0; i-- {
+				if s.Log[i].Kind == "QUERY" {
+					return s.Log[i].Text, s.Log[i].Args
+				}
+			}
+			return "", nil
+		}
+		var a, b []Item
+		var c int64
+		verifrt.Assert(h.Session(&gorm.Session{}).Limit(2).Offset(1).Find(&a).Error == nil, "C15.error")
+		alone, aloneArgs := lastQuery()
+		verifrt.Assert(h.Session(&gorm.Session{}).Count(&c).Limit(2).Offset(1).Find(&b).Error == nil, "C15.error")
+		after, afterArgs := lastQuery()
+		verifrt.Observe("page", alone)
+		verifrt.Assert(after == alone, "C15.page-after-count-differs")
+		verifrt.Assert(len(afterArgs) == len(aloneArgs), "C15.page-after-count-differs")
+		if kind == "count-then-page-session" {
+			// and the handle itself still reads the same page
+			var d []Item
+			verifrt.Assert(h.Limit(2).Offset(1).Find(&d).Error == nil, "C15.error")
+			again, _ := lastQuery()
+			verifrt.Assert(again == alone, "C15.page-after-count-differs")
+		}
 		return
 	case "rows-scanrows":
 		rs, err := db.Rows()
